@@ -235,6 +235,20 @@ def drive_coroutine(ctx, igen, need_cb=None):
     try:
         while True:
             y = igen.g.send(to_send)
+            R = ctx.ghost.get("relay")
+            if R is not None:
+                # items of an abstract callee passed on by the walker (contracts/walker_stubs.relay_items)
+                if y is None and R.get("need") is not None:
+                    key = R.pop("need")
+                    R["seen"].append(key)
+                    from contracts.walker_stubs import RelayByte
+
+                    to_send = RelayByte(key)
+                    continue
+                if y is not None and id(y) in R["objs"] and R["objs"][id(y)][1] is y:
+                    R["seen"].append(R["objs"][id(y)][0])
+                    to_send = None
+                    continue
             if y is None:
                 b = ctx.fresh_int("b", 0, 255)
                 ctx.trace.append(("need", b))
